@@ -190,7 +190,17 @@ def main():
     if lean_broken and hasattr(mod, 'kernel_failing_rows'):
         # a generated kernel table no longer matches the model: the differing rows ARE failing inputs
         kernel_rows = mod.kernel_failing_rows()
-    hists = mod.histories(rng, tier if (not lean_broken or kernel_rows) else 'thorough')
+    gen_retries = 0
+    while True:
+        try:
+            hists = mod.histories(rng, tier if (not lean_broken or kernel_rows) else 'thorough')
+            break
+        except Exception as e:          # a bug of a GENERATOR must not pose as a finding about the library
+            gen_retries += 1
+            sys.stderr.write('generator raised %s: %s (retry %d with a re-seeded PRNG)\n' % (type(e).__name__, e, gen_retries))
+            if gen_retries >= 4:
+                raise
+            rng = random.Random(seed * 1000003 + int(pid[1:]) + 7919 * gen_retries)
     corpus = mod.corpus() if hasattr(mod, 'corpus') else []
     # repaired defects stay in the corpus: their replays must agree with the model from now on
     corpus = corpus + [k['replay'] for k in load_known(pid) if k.get('status') == 'fixed' and k.get('replay')
@@ -314,6 +324,7 @@ def main():
             'extra': extra,
             'rationals_matched_by_exact_rounding': core.EXACT_RATIONAL_MATCHES,
             'file_variants_applied': file_variants_applied(),
+            'generator_retries': gen_retries,
             'exhaustive': False,
         },
         'assumptions': list(getattr(mod, 'ASSUMPTIONS', [])),
